@@ -176,7 +176,8 @@ def drive_and_validate(wd, drivebin, behaviours, invariants, props):
             for b in bs:
                 f.write(json.dumps(b) + "\n")
         procs.append((key, d, subprocess.Popen([drivebin, "gossip", "beh.ndjson", "trace.ndjson"], cwd=d,
-                                               stdout=subprocess.PIPE, stderr=subprocess.DEVNULL)))
+                                               stdout=subprocess.PIPE, stderr=subprocess.DEVNULL,
+                                               env=dict(os.environ, GOMEMLIMIT=os.environ.get("GOMEMLIMIT", "1500MiB")))))
     for key, d, p in procs:
         try:
             p.communicate(timeout=1800)
